@@ -159,6 +159,10 @@ type c15Config struct {
 	Outcome string `json:"outcome"`
 	// Mode is the profile's blocking mode: null_ip | nxdomain | refused.
 	Mode string `json:"mode"`
+	// BlockSpecial sets BlockChromePrefetch, BlockFirefoxCanary and
+	// BlockPrivateRelay of the profile and of the filtering group, so that the
+	// initial middleware answers those names itself.
+	BlockSpecial bool `json:"block_special,omitempty"`
 }
 
 // c15Outcomes lists the outcomes, simplest first.
@@ -553,7 +557,14 @@ func c15NewStack(conf c15Config, host string) (s *c15Stack) {
 			SafeBrowsing: &filter.ConfigSafeBrowsing{},
 		},
 		ID: c15FltGrpID,
+
+		BlockChromePrefetch: conf.BlockSpecial,
+		BlockFirefoxCanary:  conf.BlockSpecial,
+		BlockPrivateRelay:   conf.BlockSpecial,
 	}
+	s.prof.BlockChromePrefetch = conf.BlockSpecial
+	s.prof.BlockFirefoxCanary = conf.BlockSpecial
+	s.prof.BlockPrivateRelay = conf.BlockSpecial
 
 	var srvs []*agd.Server
 	byName := map[string]string{}
